@@ -960,7 +960,7 @@ class Serde17(SimpleCorr):
     assumptions = [
         "serde_json, bincode, rmp-serde and the derive-generated Serialize/Deserialize impls are not modelled: their part of C17 is checked on the implementation only (sampled per type, exhaustive over the fixture)",
         "the Coq models of referent.rs, unique_id.rs, tags.rs, material_colors.rs, faces.rs, axes.rs, brick_color.rs, font.rs are hand-written and tied to the code by the serde17 correspondence; tables are regenerated from the source by tools/translate17.py (+ translate.py for the BrickColor rows)",
-        "Rust std semantics assumed by the model and validated by the correspondence: `{:0Nx}` formatting, `from_str_radix` (sign, digit, overflow order), `str` slicing at non-char-boundaries panics, `String::from_utf8` validity",
+        "Rust std semantics assumed by the model and validated by the correspondence: `{:0Nx}` formatting, `from_str_radix` (sign, digit, overflow order), `str::is_ascii`, `u64 as i64`, `String::from_utf8` validity; `str` slicing off a char boundary panics (kept in the model of UniqueId::from_str, proven unreachable since /repo 680c0119: C17_uid_from_str_no_panic; a panic of the implementation is reported as `uniqueid-fromstr-panic`)",
         "values of Ref are constructed for the text checks through their bincode form (Ref has no public constructor from u128)",
     ]
 
@@ -1058,3 +1058,170 @@ class Serde17(SimpleCorr):
 
 
 REGISTRY["C17"] = Serde17()
+
+
+# =====================================================================================
+# C02 / C05: XML codec (xmlfile correspondence: Model/XmlFile.v above XmlEvents.channel; xmlchannel validates channel)
+# =====================================================================================
+class XmlFile(SimpleCorr):
+    """C02 and C05 share one correspondence run; each filters its own oracle lines.  `xmlfile-run` also prints the
+    oracle lines of C06 C07 C12 C15 (XML side) for the handlers that own those properties."""
+    kind = "xmlfile"
+    rule = ("(a) xmlchannel: random well-nested write-event lists (all XML 1.0 characters, `]]>`, markup characters, CR/LF, "
+            "whitespace-only and empty strings, adjacent text events, multi-root, unbalanced, illegal characters) through the real "
+            "XmlEventWriter -> text -> XmlEventReader versus the extracted `channel`: read events identical; "
+            "(b) xmlfile, DOM cases: generated DOMs over the ~800 database classes (properties by canonical, alias and legacy names, "
+            "values of the declared, convertible and arbitrary types from boundary pools, unknown classes and properties, Refs inside / "
+            "outside / absent, shared SharedStrings, duplicate UniqueIds, trees up to 300 levels, every Encode x Decode behaviour "
+            "pairing) through rbx_xml::to_writer -> real reader events -> rbx_xml::from_reader versus xml_encode -> channel -> "
+            "xml_decode: event lists, decoded DOMs (pre-order labels, bit-exact floats) and error classes identical; "
+            "(c) xmlfile, text cases: hand-made documents, mutated serializer output and documents of an independent writer made "
+            "from docs/xml.md (UUID referents, shuffled properties, Meta/External, forward refs, ProtectedString, CDATA, wrapped "
+            "base64, float spellings, dictionary first) decoded by both; (d) implementation-only oracles: C02 round trip against the "
+            "source DOM for the retained pairings, C05 writer clauses with expat (tools/xmlcheck.py), C05 reader on the spec "
+            "documents; non-trivial = DOM with >= 2 instances and >= 2 properties or document with >= 4 elements; distinct by case text")
+    assumptions = [
+        "float <-> decimal text (Display/FromStr of f32/f64), Color3->Color3uint8 quantisation and u8/255.0 are oracles of the model: per case the harness supplies the table of the arguments that occur, computed by the Rust standard library; a missing entry is reported as TABLE-MISS, never guessed",
+        "xml-rs is not modelled: the model works above the event abstraction; `channel` (emitter+parser+wrapper on event lists) is validated by the xmlchannel correspondence on every run",
+        "SharedString hashes (blake3) are supplied per content by the harness; the model only orders and truncates them",
+        "the harness classifies the crate-private DecodeErrorKind/EncodeErrorKind by their Display text",
+        "C05 writer direction uses Python's expat (xml.etree) as the independent XML parser and tools/xmlcheck.py as the layout checker written from docs/xml.md",
+    ]
+    STREAMS_QUICK = [("dom", "d", 1500), ("unknown", "k", 500), ("opts", "o", 400), ("deep", "p", 40), ("illegal", "i", 150),
+                     ("uid", "u", 150), ("mut", "m", 700), ("hand", "h", 46), ("foreign", "f", 600), ("mig", "g", 600)]
+
+    def gen_cmds(self, seed, tier):
+        mul = 1 if tier == "quick" else 12
+        return [["--seed", str(seed), "--cases", str(n * (1 if s == "hand" else mul)), "--stream", s, "--prefix", p]
+                for s, p, n in self.STREAMS_QUICK]
+
+    def run_cases(self, d, blocks, tag):
+        impl, model, orc, st = SimpleCorr.run_cases(self, d, blocks, tag)
+        # C05 writer direction: every text the real serializer produced, through expat + the docs/xml.md layout checker
+        import xmlcheck
+        texts = dict(vlib.read_blocks(os.path.join(d, tag + ".impl.texts")))
+        bmap = dict(blocks)
+        nchk = 0
+        for cid, lines in texts.items():
+            if not lines or not lines[0].startswith("TEXT "):
+                continue
+            case = bmap.get(cid, [])
+            if any(l == "opt stream illegal" for l in case):
+                continue                      # strings outside XML 1.0 are outside the quantifier
+            h = lines[0][5:].strip()
+            nchk += 1
+            for key, msg in xmlcheck.check(bytes.fromhex("" if h == "-" else h), case):
+                orc.append("%s C05 %s %s" % (cid, key, msg.replace("\n", " ")[:400]))
+        st["c05_writer_documents_checked_with_expat"] = nchk
+        # the channel model is part of the tie: validate it in the same run
+        if tag == "main":
+            st["xmlchannel"] = self.channel_run(d)
+        return impl, model, orc, st
+
+    def channel_run(self, d):
+        cases, obs, orc, stt, mo = [os.path.join(d, "chan" + x) for x in (".cases", ".impl", ".oracle", ".stats", ".model")]
+        n = getattr(self, "chan_cases", 3000)
+        seed = getattr(self, "chan_seed", 1)
+        for cmd in ([vlib.harness_bin(), "xmlchannel-gen", "--seed", str(seed), "--cases", str(n), "--out", cases],
+                    [vlib.harness_bin(), "xmlchannel-run", cases, obs, orc, stt],
+                    [vlib.MODELRUN, "xmlchannel", cases, mo]):
+            rc, o, _ = vlib.run(cmd, timeout=3000)
+            if rc != 0:
+                return {"error": o[-400:]}
+        a, b = dict(vlib.read_blocks(obs)), dict(vlib.read_blocks(mo))
+        bad = [k for k in a if a[k] != b.get(k)]
+        s = json.load(open(stt))
+        s["disagreements"] = len(bad)
+        s["first_disagreement"] = bad[0] if bad else None
+        return s
+
+    def known_key(self, pid, oracle_line, case_lines):
+        parts = oracle_line.split(" ", 3)
+        return parts[2] if len(parts) >= 3 else None
+
+    def shrink_candidates(self, lines):
+        """drop a whole node (with its props), then single prop lines, then table lines are left alone"""
+        idx = [i for i, l in enumerate(lines) if l.startswith("node ")]
+        for k in range(len(idx) - 1, -1, -1):
+            a = idx[k]
+            b = idx[k + 1] if k + 1 < len(idx) else next((i for i in range(a + 1, len(lines)) if not lines[i].startswith("prop ")), len(lines))
+            label = lines[a].split(" ")[1]
+            if any(l.startswith("node ") and l.split(" ")[2] == label for l in lines):
+                continue                      # has children
+            nprops = b - a - 1
+            cand = lines[:a] + lines[b:]
+            cand = [("roots " + " ".join(x for x in l.split(" ")[1:] if x != label)) if l.startswith("roots ") else l for l in cand]
+            yield cand
+        for i in range(len(lines) - 1, -1, -1):
+            if lines[i].startswith("prop "):
+                # the node line carries the number of props
+                j = max(k for k in idx if k < i)
+                p = lines[j].split(" ")
+                p[5] = "%x" % (int(p[5], 16) - 1)
+                yield lines[:j] + [" ".join(p)] + lines[j + 1:i] + lines[i + 1:]
+
+    def run(self, pid, out, tier, seed, broken):
+        d = workdir(pid)
+        self.chan_cases = 3000 if tier == "quick" else 60000
+        self.chan_seed = seed
+        blocks = self.gen_blocks(pid, d, tier, seed)
+        impl, model, orc, st = self.run_cases(d, blocks, "main")
+        bmap = dict(blocks)
+        mine = [l for l in orc if (" " + pid + " ") in (" " + l + " ")]
+        dis = self.disagreements(blocks, impl, model)
+        known = vlib.known_keys(pid)
+        unlisted, seen_known, counts = {}, {}, {}
+        for l in mine:
+            cid = l.split(" ")[0]
+            key = self.known_key(pid, l, bmap.get(cid, []))
+            counts[key] = counts.get(key, 0) + 1
+            if key and key in known:
+                seen_known.setdefault(key, l)
+            else:
+                unlisted.setdefault(key or "?", l)
+        for key, l in seen_known.items():
+            out.known.append("key=%s %s (reproduced: %s)" % (key, known[key], l[:240]))
+        chan = st.get("xmlchannel", {})
+        out.coverage.update({
+            "traces_validated_against_impl": len(blocks) + chan.get("cases", 0), "evaluations": len(blocks),
+            "distinct_nontrivial": st.get("distinct_nontrivial", 0), "rule": self.rule,
+            "samples": [{"case": blocks[k][0], "lines": [x[:160] for x in blocks[k][1][:8]]} for k in range(min(3, len(blocks)))],
+            "generator": st, "corpus_cases": self.ncorpus, "disagreements": len(dis), "oracle_failures": len(mine),
+            "oracle_failures_by_key": counts, "known_findings_reproduced": sorted(seen_known),
+            "unlisted_failure_classes": sorted(unlisted),
+            "oracle_lines_of_other_properties": {p: sum(1 for l in orc if (" " + p + " ") in l) for p in ("C06", "C07", "C12", "C15")},
+        })
+        out.assumptions += self.assumptions
+        for key, l in sorted(unlisted.items()):
+            cid = l.split(" ")[0]
+            hit = lambda ls, key=key: [x for x in self.fails(pid, d, ls)[0] if self.known_key(pid, x, ls) == key]
+            if cid in bmap and bmap[cid] and bmap[cid][0] == "kind dom" and len(bmap[cid]) < 400:
+                small = self.shrink(pid, d, bmap[cid], lambda ls: bool(hit(ls)))
+                o2 = hit(small)
+                text = o2[0] if o2 else l
+                rp = vlib.write_replay(pid, self.kind, "implementation oracle: " + text, small)
+            elif cid in bmap:
+                text = l
+                rp = vlib.write_replay(pid, self.kind, "implementation oracle: " + l, bmap[cid])
+            else:
+                text = l
+                rp = vlib.write_replay(pid, self.kind + "-sweep", "implementation oracle: " + l, [l])
+            out.violation("the implementation violates %s [%s]: %s" % (pid, key, text.split(" ", 3)[-1][:600]), rp, True)
+        if chan.get("disagreements") or chan.get("error"):
+            rp = vlib.write_replay(pid, "xmlchannel", "channel model and real XmlEventWriter/XmlEventReader disagree", [json.dumps(chan)],
+                                   broken="correspondence xmlchannel (Model/XmlEvents.v channel vs xml-rs as configured by rbx_xml)")
+            out.violation("correspondence broken: the `channel` function no longer describes the real emitter+parser pair: %s" % json.dumps(chan)[:300], rp, False)
+        if dis:
+            cid, k, text = dis[0]
+            small = self.shrink(pid, d, bmap[cid], lambda ls: bool(self.fails(pid, d, ls)[1])) if bmap[cid][0] == "kind dom" and len(bmap[cid]) < 400 else bmap[cid]
+            _, d2 = self.fails(pid, d, small)
+            what = d2[0][2] if d2 else text
+            rp = vlib.write_replay(pid, self.kind, what, small, broken="correspondence xmlfile (Coq model of rbx_xml vs implementation)")
+            out.violation("correspondence broken (model and implementation disagree): " + what, rp, False)
+        if broken:
+            rp = vlib.write_replay(pid, "proof", broken.split("\n")[0], broken.split("\n"), broken=broken.split("\n")[0])
+            out.violation(broken.split("\n")[0], rp, False)
+
+
+for _p in ("C02", "C05"):
+    REGISTRY[_p] = XmlFile()
